@@ -25,7 +25,92 @@ func (e *Exec) branch(st *State, cond, tag string) *State {
 	return n
 }
 
+// nestedHelperCall: the first call (innermost, leftmost) of a helper without a contract that sits INSIDE an expression
+// of the statement (an argument, an operand, one of several results) and has not been executed yet on this path. Calls
+// in statement position are handled where the statement is executed; operands that Go evaluates conditionally (the right
+// side of && and ||) and function literals are left alone.
+func (e *Exec) nestedHelperCall(s ast.Stmt, st *State, ctx *Ctx) *ast.CallExpr {
+	var roots []ast.Expr
+	top := map[ast.Expr]bool{}
+	switch y := s.(type) {
+	case *ast.ReturnStmt:
+		roots = y.Results
+		if len(y.Results) == 1 {
+			top[y.Results[0]] = true
+		}
+	case *ast.AssignStmt:
+		roots = append(append([]ast.Expr{}, y.Rhs...), y.Lhs...)
+		if len(y.Rhs) == 1 {
+			top[y.Rhs[0]] = true
+		}
+	case *ast.ExprStmt:
+		roots = []ast.Expr{y.X}
+		top[y.X] = true
+	case *ast.IfStmt:
+		roots = []ast.Expr{y.Cond}
+	default:
+		return nil
+	}
+	info := e.info(ctx)
+	var found *ast.CallExpr
+	var walk func(x ast.Node)
+	walk = func(x ast.Node) {
+		if found != nil || x == nil {
+			return
+		}
+		switch y := x.(type) {
+		case *ast.FuncLit:
+			return
+		case *ast.BinaryExpr:
+			walk(y.X)
+			if y.Op != token.LAND && y.Op != token.LOR {
+				walk(y.Y)
+			}
+			return
+		case *ast.CallExpr:
+			for _, a := range y.Args {
+				walk(a)
+			}
+			walk(y.Fun)
+			if found != nil || top[y] {
+				return
+			}
+			if _, done := st.preval[y]; done {
+				return
+			}
+			if callee := e.calleeOf(y, info); callee != nil && e.autoInlinable(callee) {
+				if callee.Obj.Type().(*types.Signature).Results().Len() == 1 {
+					found = y
+				}
+			}
+			return
+		}
+		ast.Inspect(x, func(n ast.Node) bool {
+			if n == nil || n == x {
+				return true
+			}
+			walk(n)
+			return false
+		})
+	}
+	for _, r := range roots {
+		walk(r)
+	}
+	return found
+}
+
 func (e *Exec) execStmt(s ast.Stmt, st *State, ctx *Ctx, k func(*State)) {
+	if call := e.nestedHelperCall(s, st, ctx); call != nil {
+		callee := e.calleeOf(call, e.info(ctx))
+		e.inlineFunc(callee, call, st, ctx, nil, func(st2 *State, vals []string) {
+			if st2.preval == nil {
+				st2.preval = map[*ast.CallExpr]string{}
+			}
+			st2.preval[call] = vals[0]
+			e.execStmt(s, st2, ctx, k)
+		})
+		return
+	}
 	switch s := s.(type) {
 	case *ast.BlockStmt:
 		e.execBlock(s.List, st, ctx, k)
@@ -82,8 +167,7 @@ func (e *Exec) execStmt(s ast.Stmt, st *State, ctx *Ctx, k func(*State)) {
 	case *ast.ReturnStmt:
 		e.execReturn(s, st, ctx)
 	case *ast.IfStmt:
-		run := func(st *State) {
-			c := e.eval(s.Cond, st, ctx)
+		withCond := func(st *State, c string) {
 			tag := fmt.Sprintf("if%d", e.w.Fset.Position(s.Pos()).Line)
 			e.execBlock(s.Body.List, e.branch(st, c, tag+"t"), ctx, k)
 			els := e.branch(st, "(not "+c+")", tag+"f")
@@ -92,6 +176,37 @@ func (e *Exec) execStmt(s ast.Stmt, st *State, ctx *Ctx, k func(*State)) {
 			} else {
 				k(els)
 			}
+		}
+		run := func(st *State) {
+			// `if helper(x)` / `if !helper(x)` with a helper that is executed through its body
+			cond, neg := ast.Expr(s.Cond), false
+			for {
+				if p, ok := cond.(*ast.ParenExpr); ok {
+					cond = p.X
+					continue
+				}
+				if u, ok := cond.(*ast.UnaryExpr); ok && u.Op == token.NOT {
+					cond, neg = u.X, !neg
+					continue
+				}
+				break
+			}
+			if call, ok := cond.(*ast.CallExpr); ok {
+				if callee := e.calleeOf(call, e.info(ctx)); callee != nil && e.autoInlinable(callee) {
+					if sig := callee.Obj.Type().(*types.Signature); sig.Results().Len() == 1 {
+						if e.tryInline(call, st, ctx, func(st2 *State, vals []string) {
+							c := vals[0]
+							if neg {
+								c = "(not " + c + ")"
+							}
+							withCond(st2, c)
+						}) {
+							return
+						}
+					}
+				}
+			}
+			withCond(st, e.eval(s.Cond, st, ctx))
 		}
 		if s.Init != nil {
 			e.execStmt(s.Init, st, ctx, run)
